@@ -18,7 +18,7 @@ LEVEL = 'proof'
 EXPECTED_MIN = {'quick': 30, 'thorough': 60}
 EXPLANATION = ('insert_internal is verified with SYMBOLIC cursors and contents against the whole-view contract (z3, ints + reals); the sampling '
                'methods are verified for every cursor position of the finite cursor domain with symbolic contents (and symbolic PRNG output for '
-               'the uniform queue); the host-side guards are executed path-exhaustively on the real methods; the host counter invariant that '
+               'the uniform queue); the host-side guards are executed path-exhaustively on the real methods for 1-4 shards (per-shard capacity, count and batch, as the sharded wrappers call them); the host counter invariant that '
                'discharges the sampling preconditions is a lemma over those contracts.  Histories: induction over wf + view.')
 TRUSTED = ['paper lemma: wf + whole-view postconditions of insert/sample imply bounded-FIFO semantics over any operation history (induction on the history)',
            'jax.random.randint(key, shape, lo, hi) returns integers in [lo, hi) and jax.random.split is a function of the key (assumed contracts, cut)',
